@@ -1,5 +1,6 @@
-import os, re
-from checks.generic import standard
+import os, re, threading
+import core
+from checks.generic import standard, first_index
 
 # Model/CertgenObs.v c02_violation: the property's predicate evaluated on the OBSERVED answer of a case
 # on which implementation and model differ
@@ -39,7 +40,55 @@ def model_oracle(ctx, res, name="c02_violating", idxfile="CasesC02.idx", prefix=
         ctx.hits.append({"key": key, "oracle": oracle, "what": line.split("\t", 1)[-1][:600], "case": line,
                          "observed": {"index": i, "violation_class": cname}, "kind": "input"})
 
+def base_for(ctx, pkgname):
+    p = os.path.join(ctx.work, "base_%s.go" % pkgname)
+    open(p, "w").write(open(os.path.join(core.VERIF, "harness", "base", "base.go")).read().replace("package verifbase", "package " + pkgname, 1))
+    return p
+
+KRB_CORR = [("c02_krb_mismatches", "lib/certgen changePrintableStringToGeneralString (called directly, overlaid test in lib/certgen) on marshalled PKINIT names for realm x name lengths 0..300 (short / one-octet / two-octet length forms at every nesting level; PrintableString and UTF8String contents) and on truncated / mutated inputs: bytes, error or panic = model patch (Model/DerPatch.v) on the same input"),
+            ("c02_krb_encoder_mismatches", "asn1.Marshal(PKInitSANAnotherName{realm, [name]}) = model krb_der realm name (the encoder the theorem c02_krb_patch_tags_only speaks about)")]
+
+def krb_patch(ctx, harness_thread, box):
+    """second test binary: the byte patching of the PKINIT name, lib/certgen's own code"""
+    harness_thread.join()
+    result = box.get("result")
+    if result is None:
+        return
+    res = ctx.eval_cases(os.path.join(ctx.work, "CasesC02K.v"), "CasesC02K.v")
+    if res is None:
+        return
+    lines = []
+    p = os.path.join(ctx.work, "CasesC02K.idx")
+    if os.path.exists(p):
+        lines = open(p).read().split("\n")
+    n = res.get("c02k_ncases", "?")
+    for name, label in KRB_CORR:
+        mism = res.get(name)
+        if mism == "[]":
+            ctx.obligations.append(("corr:%s (%s cases in file)" % (label, n), True, "no mismatch"))
+            continue
+        ctx.obligations.append(("corr:" + label, False, "mismatch indices %s" % (mism or "missing")[:200]))
+        i = first_index(mism)
+        first = lines[i][:3000] if i is not None and i < len(lines) else None
+        ctx.broken.append(("correspondence", name, {"label": label, "first_mismatch": first, "indices": (mism or "")[:400]}))
+    viol = res.get("c02_krb_violating")
+    if viol and viol != "[]":
+        for i in [int(x) for x in re.findall(r"\d+", viol)][:20]:
+            line = lines[i] if i < len(lines) else "case %d" % i
+            ctx.hits.append({"key": "C02:model-oracle:krb-patch-not-tags-only",
+                             "oracle": "the observed output of the byte patch is not the input with (at most) the two string tags replaced by 27, of the same length - or the function panicked / refused a well-formed structure (tags_only_b / two_tags_b of Model/DerPatch.v on the observation; c02_krb_patch_tags_only, c02_krb_patch_total)",
+                             "what": line.split("\t", 1)[-1][:600], "case": line[:3000], "kind": "input"})
+
 def run(ctx):
+    box = {}
+    def krb_harness():
+        try:
+            ok, result, log = ctx.go_harness("lib/certgen", "TestVerif_C02K", [base_for(ctx, "certgen"), "certgen/c02k.go"], timeout=600)
+            box["result"] = result
+        except Exception as ex:  # noqa
+            ctx.broken.append(("correspondence", "harness:TestVerif_C02K", str(ex)[-2000:]))
+    kt = threading.Thread(target=krb_harness)
+    kt.start()
     orig = ctx.eval_cases
     def eval_cases(vfile, label="correspondence", timeout=1800):
         res = orig(vfile, label, timeout)
@@ -49,17 +98,19 @@ def run(ctx):
             model_oracle(ctx, res, "c02_ident_violating", "CasesC02ident.idx", "identity:")
         return res
     ctx.eval_cases = eval_cases
-    return standard(ctx,
+    return standard(ctx, post_cases=lambda c, r: krb_patch(c, kt, box),
         props=[("Props.C02", ["c02_binding", "c02_signed_by_loaded_signer", "c02_published_for_every_initial_list", "c02_other_user_refused", "c02_extensions", "c02_extensions_env_independent", "c02_env_shadows_user_refuted",
                               "c02_failed_expansion_refused", "c02_names_injective", "c02_no_other_names", "c02_user_is_normalised",
                               "c02_identity_is_account", "c02_other_spelling_refused", "c02_normalised_name_certified",
-                              "c02_normalise_idempotent", "c02_normalise_idempotent_okta", "c02_typed_identity_refuted", "c02_old_krb_refuted"])],
+                              "c02_normalise_idempotent", "c02_normalise_idempotent_okta", "c02_typed_identity_refuted", "c02_old_krb_refuted",
+                              "c02_krb_patch_tags_only", "c02_krb_patch_tags_only_sizes", "c02_krb_patch_total", "c02_krb_patch_length", "c02_old_krb_patch_refuted"])],
         harness=("TestVerif_C02", ["kmd/common.go", "kmd/creds.go", "kmd/consts.go", "kmd/c01.go", "kmd/c02.go", "kmd/c02ident.go"]),
         cases=("CasesC02.v", [("c02_mismatches", "every decoded certificate (names, key id, key, type, CA flag, usages, extension map, verifying CA, organisations, groups, service methods, PKINIT name) and every refusal = model certgen on the same request"),
                               ("c02_login_mismatches", "session subject minted by /api/v0/login = model normalise of the submitted name"),
                               ("c02_ident_mismatches", "credential kind (login by form / by Basic header, Basic header on the request, client certificate, IP-restricted automation certificate) x name spelling (case variants, mail domains, blanks, line feed) x URL segment (as typed / as the account): certificate or refusal, the account the password backend was asked about, the session subject = model ident_certgen / cred_path on the typed name", "CasesC02ident.idx"),
                               ("c02_okta_filter_mismatches", "the model's Okta user-name filter = the compiled default expression on every typed name of the family", None)], "CasesC02.idx"),
-        trusted=["x/crypto/ssh and crypto/x509 encode and decode the certificates (the model's certificate is the abstract certdesc); signatures are checked by the real verifiers against the CA material fetched from /public/sshca and /public/x509ca of the same state",
+        trusted=["encoding/asn1 marshals the PKINIT name that lib/certgen then patches: the model's encoder krb_der is compared with asn1.Marshal on every (realm, name) of the grid, the patch itself (changePrintableStringToGeneralString, derWalk) is modelled byte for byte (Model/DerPatch.v) and proved tags-only and panic-free",
+                 "x/crypto/ssh and crypto/x509 encode and decode the certificates (the model's certificate is the abstract certdesc); signatures are checked by the real verifiers against the CA material fetched from /public/sshca and /public/x509ca of the same state",
                  "mvdan.cc/sh shell.Expand is an oracle of the model; the harness calls it on every template string for every user and ships the results (including which templates it rejects for which user)",
                  "the directory (group database) answers are inputs of the model; the harness mirrors its lower-case lookup",
                  "strings.ToLower is modelled on ASCII letters only"],
